@@ -3,9 +3,9 @@ from __future__ import annotations
 
 import z3
 
-from .. import common, meprogs, templates
+from .. import common, exprsem, meprogs, templates
 from ..driver import HOLDS, INCONCLUSIVE, UNDECIDED, VIOLATION
-from ..prog import Env, IllTyped, add_abstract_leaf, build, cols_of, fmt, from_jsonable, ops_of, to_jsonable
+from ..prog import Env, IllTyped, add_abstract_leaf, build, cols_of, expression_history, fmt, from_jsonable, ops_of, to_jsonable
 from ..symx import Skip, explore
 
 PID = "C14"
@@ -32,7 +32,7 @@ def _apply(acts, label, child, opts, i):
 
 
 def programs(tier):
-    acts = meprogs.actions("full" if tier == "thorough" else "std")
+    acts = meprogs.actions("full" if tier == "thorough" else "std", nested=True)
     labels = [a[0] for a in acts]
     unary_with_opts = [a[0] for a in acts if a[3]]
     out = []
@@ -113,7 +113,7 @@ def check_tree(rel, env, seen=None):
             return f"placeholder operation {type(o).__name__} appears as a node"
         if rel.engine != rel.target.engine:
             return "unary operation node not in its operand's engine"
-        if not o.is_supported_by(rel.engine):
+        if not exprsem.op_supported(o, rel.engine):
             return f"operation {o} not supported by engine {rel.engine} of the node holding it"
         return check_tree(rel.target, env, seen)
     if isinstance(rel, BinaryOperationRelation):
@@ -128,7 +128,7 @@ def check_tree(rel, env, seen=None):
             cc = o.common_columns
             if not (cc <= rel.lhs.columns and cc <= rel.rhs.columns and all(t.is_key for t in cc)):
                 return f"join common columns {set(cc)} are not key columns of both operands"
-            if not o.predicate.is_supported_by(rel.engine):
+            if not exprsem.lib_supported(o.predicate, rel.engine):
                 return f"join predicate {o.predicate} not supported by engine {rel.engine}"
         return check_tree(rel.lhs, env, seen) or check_tree(rel.rhs, env, seen)
     if isinstance(rel, Transfer):
@@ -175,6 +175,7 @@ def examine(prog, env):
     """-> (outcome, problem) ; outcome in tree / rejected / bad-exception"""
     from lsst.daf.relation import ColumnError, EngineError, RelationalAlgebraError
 
+    expression_history(env, prog)
     try:
         rel = build(prog, env)
     except (ColumnError, EngineError) as e:
